@@ -499,6 +499,59 @@ def c04_snapshot_xmax(env, ob):
     return trace_obligation(env, ob, ctx, res, bad, "snapshot() can return a Snapshot whose xmax is None")
 
 
+@obligation(id="C04.own_delete_hides_older_versions", also="C18", funcs="TupleReader::parse_for_snapshot,TupleLayout::is_valid_for_snapshot,Snapshot::is_committed_before_snapshot",
+            bounds="every path of parse_for_snapshot with the version-chain loop unrolled once (newest version + one delta); "
+                   "parse_last_version / DeltaHeader::read_from / value decoding uninterpreted",
+            native="c04_own_delete_after_update")
+def c04_own_delete(env, ob):
+    """If the newest version carries xmax = the reader's own transaction (the reader deleted the row), the reader must
+    get nothing - in particular not an older version dug out of the delta chain."""
+    inline = {r"^Snapshot::is_committed_before_snapshot$": (COORD, "is_committed_before_snapshot", None),
+              r"^Snapshot::xid$": (COORD, "xid", r"&Snapshot\) -> u64"),
+              r"TupleLayout::is_valid_for_snapshot$": ("storage/tuple.rs", "is_valid_for_snapshot", None)}
+    ctx, f, args, res = explore(env, "storage/tuple.rs", "parse_for_snapshot", inline=inline, loop_bound=1)
+    lay_names = env.struct_fields("storage/tuple.rs", "TupleLayout")
+    ixl = {n: str(i) for i, n in enumerate(lay_names)}
+    sn = env.struct_fields(COORD, "Snapshot")
+    spi = [i for i, (pn, pt) in enumerate(f.params) if "Snapshot" in pt][0]
+    xid = args[spi].cell.val.field_cell(str(sn.index("xid")), "u64").val.term
+    cands, witness = [], []
+    for path, rv in res:
+        if path.cut or path.panics or not isinstance(rv, Agg):
+            continue
+        pl = [e for e in path.events if callee_is(e, r"parse_last_version$")]
+        if not pl or not isinstance(pl[0]["ret"], Agg):
+            continue
+        base = pl[0]["ret"].name + "@Ok.0"
+        d0 = ctx.smtname(f"{base}.{ixl['version_xmax']}#d")
+        x0 = ctx.smtname(f"{base}.{ixl['version_xmax']}@Some.0")
+        if d0 not in ctx.decls or x0 not in ctx.decls:
+            continue
+        okd = mirsmt.const_of(rv.get_disc().term)
+        if okd != 0:
+            continue
+        opt = rv.variants["Ok"].val.fields["0"].val
+        od = opt.get_disc().term if isinstance(opt, Agg) else None
+        if od is None:
+            continue
+        returned_some = f"(= {od} {bvconst(1, 64)})"
+        own_delete = f"(and (= {d0} {bvconst(1, 64)}) (= {x0} {xid}))"
+        witness.append(conj(path.pc + [own_delete]))
+        cands.append(conj(path.pc + [own_delete, returned_some]))
+    if not cands:
+        return result(ob, "inconclusive", reason="vacuity: no completed path reads the newest version's xmax", paths=len(res))
+    chk = env.check(ctx, [disj(cands), disj(witness)])
+    kw = dict(paths=len(res), queries=2)
+    if chk[1]["verdict"] != "sat":
+        return result(ob, "inconclusive", reason="vacuity: own-delete state unreachable: " + chk[1]["verdict"], **kw)
+    if chk[0]["verdict"] == "unsat":
+        return result(ob, "discharged", **kw)
+    if chk[0]["verdict"] == "sat":
+        return result(ob, "violated", failed=["own_delete_returns_a_version"],
+                      cex={"what": "newest version deleted by the reader itself, yet parse_for_snapshot returns Some(version)"}, **kw)
+    return result(ob, "inconclusive", reason=chk[0]["verdict"], **kw)
+
+
 # ---------------------------------------------------------------------------------------------------------------------
 # C02 / C01 / C03: what the commit / rollback paths write to the log, and in which order
 # ---------------------------------------------------------------------------------------------------------------------
@@ -658,6 +711,111 @@ def c04_write_recorded(env, ob):
                 return (f"write_not_registered_in_write_set@DmlExecutor::{fn}", ret_is_ok(rv))
             return None
         agg = merge(agg, trace_obligation(env, ob, ctx, res, bad, "row modified and logged but never added to the transaction's write set"))
+    return agg
+
+
+@obligation(id="C02.analysis_classification", also="C01", funcs="WriteAheadLog::run_analysis",
+            bounds="one iteration of the analysis loop from an arbitrary record (kind symbolic); BTreeSet operations "
+                   "uninterpreted trace events; the second iteration is cut",
+            native="c02_analysis_classification")
+def c02_analysis_classification(env, ob):
+    """Begin => needs_undo+ ; Commit => needs_undo-, needs_redo+ ; Abort => needs_redo-, needs_undo+ ; every other
+    record kind leaves both sets alone.  One iteration from an arbitrary set state is the inductive step for
+    'redo set = transactions whose last control record is Commit'."""
+    kinds = env.enum_variants("storage/wal.rs", "RecordType")
+    fields = env.struct_fields("io/wal.rs", "AnalysisResult")
+    fu, fr = str(fields.index("needs_undo")), str(fields.index("needs_redo"))
+    ctx, f, args, res = explore(env, "io/wal.rs", "run_analysis", loop_bound=1)
+    expect = {"Begin": {("insert", "undo")}, "Commit": {("remove", "undo"), ("insert", "redo")},
+              "Abort": {("remove", "redo"), ("insert", "undo")}}
+    byval = {v: k for k, v in kinds.items()}
+    cands, seen_kinds = [], set()
+    for path, rv in res:
+        lt = [i for i, e in enumerate(path.events) if callee_is(e, r"::log_type$")]
+        if not lt:
+            continue
+        d = path.events[lt[0]]["ret"]
+        if not isinstance(d, Agg) or d.disc is None:
+            continue
+        kind = None
+        for c in path.pc:
+            m = re.match(r"^\(= " + re.escape(d.disc.term) + r" \(_ bv(\d+) 64\)\)$", c)
+            if m:
+                kind = byval.get(int(m.group(1)))
+        if kind is None:
+            continue
+        end = lt[1] if len(lt) > 1 else len(path.events)
+        ops = set()
+        for e in path.events[lt[0]:end]:
+            m = re.search(r"BTreeSet::<u64>::(insert|remove)", e["callee"])
+            if m and e["argdesc"]:
+                nm = e["argdesc"][0]
+                if nm.endswith("." + fu):
+                    ops.add((m.group(1), "undo"))
+                elif nm.endswith("." + fr):
+                    ops.add((m.group(1), "redo"))
+        seen_kinds.add(kind)
+        if ops != expect.get(kind, set()):
+            cands.append((kind, ops, conj(path.pc[:path.pc.index(c) + 1] if False else path.pc)))
+    missing = [k for k in kinds if k not in seen_kinds]
+    if missing:
+        return result(ob, "inconclusive", reason="vacuity: record kinds never reached: " + ",".join(missing), paths=len(res))
+    uniq = {}
+    for kind, ops, q in cands:
+        uniq.setdefault((kind, tuple(sorted(ops))), q)
+    chk = env.check(ctx, list(uniq.values())) if uniq else []
+    bad = [f"analysis_misclassifies_{k}:{'+'.join(o[0] + '_' + o[1] for o in ops) or 'no_set_update'}"
+           for ((k, ops), q), r in zip(uniq.items(), chk) if r["verdict"] == "sat"]
+    inc = [r["verdict"] for r in chk if r["verdict"] not in ("sat", "unsat")]
+    kw = dict(paths=len(res), queries=len(uniq))
+    if bad:
+        return result(ob, "violated", failed=sorted(bad), cex={"what": bad}, **kw)
+    if inc:
+        return result(ob, "inconclusive", reason=inc[0], **kw)
+    return result(ob, "discharged", **kw)
+
+
+# ---------------------------------------------------------------------------------------------------------------------
+# C09: transaction ids never collide / go backwards
+# ---------------------------------------------------------------------------------------------------------------------
+@obligation(id="C09.txid_monotone", funcs="TransactionCoordinator::begin,TransactionCoordinator::commit",
+            bounds="every path of begin() and commit(); pager accessors uninterpreted (pure getters)",
+            native="c09_txids_distinct")
+def c09_txid_monotone(env, ob):
+    """begin() hands out the stored last_created value and stores exactly value+1; commit() only ever raises the stored
+    last_committed.  (With C09's header round trip this gives: ids handed out after a reopen are above every id used.)"""
+    agg = None
+    ctx, f, args, res = explore(env, COORD, "begin", sig=r"TransactionCoordinator", pure=[r"get_last_created_transaction$"])
+
+    def bad_begin(path, rv):
+        if path.panics or rv is None:
+            return None
+        gets = [e for e in path.events if callee_is(e, r"get_last_created_transaction$")]
+        sets = [e for e in path.events if callee_is(e, r"set_last_created_transaction$")]
+        okc = ret_is_ok(rv)
+        if not gets or not sets:
+            return ("begin_ok_without_advancing_last_created", okc)
+        x, y = gets[0]["ret"], sets[-1]["args"][-1]
+        if not (isinstance(x, Leaf) and isinstance(y, Leaf)):
+            return ("begin_counter_not_integer", okc)
+        return ("begin_does_not_store_id_plus_one", conj([okc, f"(not (= {y.term} (bvadd {x.term} {bvconst(1, 64)})))"]))
+    agg = merge(agg, trace_obligation(env, ob, ctx, res, bad_begin, "begin() stores something other than last_created+1"))
+    ctx, f, args, res = explore(env, COORD, "commit", sig=r"TransactionCoordinator", pure=[r"get_last_committed_transaction$"])
+
+    def bad_commit(path, rv):
+        if path.panics or rv is None:
+            return None
+        sets = [e for e in path.events if callee_is(e, r"set_last_committed_transaction$")]
+        gets = [e for e in path.events if callee_is(e, r"get_last_committed_transaction$")]
+        if not sets:
+            return None
+        if not gets:
+            return ("commit_overwrites_last_committed_blindly", None)
+        cur, new = gets[-1]["ret"], sets[-1]["args"][-1]
+        if not (isinstance(cur, Leaf) and isinstance(new, Leaf)):
+            return ("commit_counter_not_integer", None)
+        return ("commit_lowers_last_committed", f"(bvult {new.term} {cur.term})")
+    agg = merge(agg, trace_obligation(env, ob, ctx, res, bad_commit, "commit() can store a smaller last_committed"))
     return agg
 
 
